@@ -655,7 +655,19 @@ fn small_game(ctx: &mut Ctx, i: u64, max_nodes: usize) -> (T, &'static str) {
     loop {
         let (t, fam) = gen_game(&mut ctx.rng, i, max_nodes);
         if build(&t).is_ok() {
-            return (t, fam);
+            // now and then the same game in other units: payoffs times an exact power of two
+            // (nothing in the documented algorithms depends on the absolute payoff scale)
+            return match ctx.rng.below(16) {
+                0 => {
+                    ctx.stat("payoff_units_2^-80");
+                    (t.map_payoffs(&|p| p * 2f64.powi(-80)), fam)
+                }
+                1 => {
+                    ctx.stat("payoff_units_2^40");
+                    (t.map_payoffs(&|p| p * 2f64.powi(40)), fam)
+                }
+                _ => (t, fam),
+            };
         }
     }
 }
